@@ -41,7 +41,10 @@ def make(ck, rnd, n):
     recs, metas = [], []
     for t in range(n):
         c = gen.gen_circuit(rnd, max_gates=ck.pick(9, 16), max_ff=2)
+        cls = rnd.choice(['WaveSim', 'WaveSimCuda'])
         lanes = rnd.choice([1, 3, 4, 8, 9])
+        if cls == 'WaveSimCuda' and rnd.random() < 0.08:
+            lanes = rnd.choice([24, 40, 64])      # batches beyond one block of the (mock) GPU launcher
         d = gen.rand_delays(rnd, c, vals=(0, 1, 2, 3, 5))
         wstrip = rnd.random() < 0.4
         if wstrip:
@@ -54,7 +57,7 @@ def make(ck, rnd, n):
         # initial and final values do not depend on the time at which the outputs are sampled: c_to_s(time=T) with a finite T
         T = rnd.choice([None, None, 0.5, 3.0, 7.5, 12.0])
         mt = dict(T=T, circuit=gen.circuit_state(c), lanes=lanes, delays=d.tolist(), caps=rnd.choice([4, 8, 16, [rnd.choice([4, 8, 16]) for _ in range(len(c.lines) + 3)], [4 if x < len(c.s_nodes) else 16 for x in range(len(c.lines) + 3)]]), inw=inw, warm=warm,
-                  cls=rnd.choice(['WaveSim', 'WaveSimCuda']), wreuse=rnd.random() < 0.5, wstrip=wstrip, lreuse=rnd.random() < 0.5, lstrip=rnd.random() < 0.5)
+                  cls=cls, wreuse=rnd.random() < 0.5, wstrip=wstrip, lreuse=rnd.random() < 0.5, lstrip=rnd.random() < 0.5)
         mt['desc'] = '%s wave(reuse=%s strip=%s) logic(reuse=%s strip=%s) caps=%s T=%s' % (mt['cls'], mt['wreuse'], mt['wstrip'], mt['lreuse'], mt['lstrip'], mt['caps'] if isinstance(mt['caps'], int) else 'per-line', T)
         recs.append(build(mt))
         metas.append(mt)
